@@ -172,3 +172,28 @@ def resolve(ctx, strings, label='resolve'):
         if not ok:
             ctx.disagreement(label, dict(text=s), dict(impl=dict(bits=bits, ts=ts, np=np), model=dict(bits=mbits, ts=mts, np=mnp)))
     return impl, model
+
+# ---------------------------------------------------------------------------------------------------------------
+def direct(ctx, kind, payloads, describe=None, label=None):
+    """run the property's own predicate on the implementation (tools/layers/direct.py) for every payload"""
+    cases = [[kind] + (p if isinstance(p, list) else [p]) for p in payloads]
+    res = vlib.run_impl('direct', cases)
+    out = []
+    for p, r in zip(payloads, res):
+        ctx.count((label or kind) + '_' + (r.get('outcome', 'done') if isinstance(r, dict) else 'harness'))
+        d = describe(p) if describe else dict(case=p)
+        if not isinstance(r, dict):
+            ctx.violation('the direct run could not evaluate this case: ' + str(r)[:300], d, dict(kind='harness', **d)); continue
+        ctx.case((kind, repr(p)[:2000]), nontrivial=True, sample=dict(direct=kind, **{k: (v[:120] if isinstance(v, str) else v) for k, v in d.items()}))
+        for b in r.get('bad', []):
+            sig = dict(d); sig.update(b)
+            ctx.violation(b['what'], sig, sig)
+        out.append(r)
+    return res
+
+INDICATORS = list("-:?[]{},#&*!|>'\"%a \n")
+def indicator_strings(maxlen):
+    out = []
+    for n in range(1, maxlen + 1):
+        out += [''.join(t) for t in itertools.product(INDICATORS, repeat=n)]
+    return out
